@@ -140,7 +140,9 @@ fn op_keys(req: &Value) -> Value {
 	let nkeys = keys.len();
 	for (i, k) in keys.iter().enumerate() {
 		let kstr = k.as_str().map(|x| x.to_string()).unwrap_or_else(|| s(k, "k"));
+		trace_take();
 		let r = catch_unwind(AssertUnwindSafe(|| v.read_field(&kstr)));
+		let cmds = trace_take();
 		let field = match r {
 			Ok(Ok(f)) => json!({"ok": f}),
 			Ok(Err(e)) => json!({"err": e}),
@@ -166,6 +168,7 @@ fn op_keys(req: &Value) -> Value {
 		match r {
 			Ok(mut st) => {
 				st.as_object_mut().unwrap().insert("field".into(), field);
+				st.as_object_mut().unwrap().insert("cmds".into(), Value::Array(cmds));
 				if let Some(p) = pre_snm { st.as_object_mut().unwrap().insert("pre_snm".into(), p); }
 				steps.push(st);
 			}
@@ -256,6 +259,7 @@ pub fn serve() {
 		let loc = info.location().map(|l| format!("{}:{}", l.file(), l.line())).unwrap_or_default();
 		LAST_PANIC_LOC.with_borrow_mut(|l| *l = loc);
 	}));
+	CMD_TRACE.with_borrow_mut(|t| *t = Some(vec![]));
 	let stdin = std::io::stdin();
 	let mut out = std::io::stdout().lock();
 	for line in stdin.lock().lines() {
@@ -391,4 +395,41 @@ pub fn dump_records(recs: &[Vec<(String,String)>]) {
 		buf.push('\n');
 		f.write_all(buf.as_bytes()).ok();
 	}
+}
+
+thread_local! {
+	static CMD_TRACE: std::cell::RefCell<Option<Vec<Value>>> = const { std::cell::RefCell::new(None) };
+}
+
+/// Called at the top of `LineBuf::exec_cmd` (only records while the server runs).
+pub fn trace_cmd_begin(cmd: &crate::vicmd::ViCmd, buffer: &str, cursor: usize) {
+	CMD_TRACE.with_borrow_mut(|t| if let Some(t) = t.as_mut() {
+		let verb = cmd.verb.as_ref().map(|v| format!("{:?}", v.1));
+		let motion = cmd.motion.as_ref().map(|m| format!("{:?}", m.1));
+		t.push(json!({
+			"verb": verb, "vcount": cmd.verb.as_ref().map(|v| v.0), "motion": motion, "mcount": cmd.motion.as_ref().map(|m| m.0),
+			"reg": format!("{:?}", cmd.register), "flags": format!("{:?}", cmd.flags),
+			"char_insert": cmd.verb.as_ref().is_some_and(|v| v.1.is_char_insert()),
+			"undo_op": cmd.is_undo_op(), "is_edit": cmd.verb.as_ref().is_some_and(|v| v.1.is_edit()),
+			"repeatable": cmd.is_repeatable(),
+			"before": buffer, "c0": cursor, "done": false
+		}));
+	});
+}
+
+/// Called where `LineBuf::exec_cmd` returns Ok.
+pub fn trace_cmd_end(buffer: &str, cursor: usize) {
+	CMD_TRACE.with_borrow_mut(|t| if let Some(t) = t.as_mut() {
+		// the innermost command that has not finished yet (exec_cmd can nest through RepeatGlobal)
+		if let Some(e) = t.iter_mut().rev().find(|e| e["done"] == json!(false)) {
+			let m = e.as_object_mut().unwrap();
+			m.insert("after".into(), json!(buffer));
+			m.insert("c1".into(), json!(cursor));
+			m.insert("done".into(), json!(true));
+		}
+	});
+}
+
+fn trace_take() -> Vec<Value> {
+	CMD_TRACE.with_borrow_mut(|t| t.as_mut().map(std::mem::take).unwrap_or_default())
 }
